@@ -12,35 +12,51 @@ LIMIT = 1 << 20
 
 TRUSTED = [
     "Lean 4 kernel; axioms of every theorem audited (propext, Classical.choice, Quot.sound at most)",
-    "hand-written model lean/CppUModel/Model/AllocLayout.lean of allocMemory/reallocMemory/deallocMemory, the C wrappers and "
-    "operator new, tied to the code by the h_c05 correspondence (this run, ASan/UBSan, default build and -DCPPUTEST_DISABLE_MEM_CORRUPTION_CHECK)",
-    "translate/extract_alloclayout.py: the size expressions (calculateVoidPointerAlignedSize, sizeOfMemoryWithCorruptionInfo, node offset, "
-    "request sizes, both overflow guards, the calloc test/request/memset) are parsed from the current source and emitted as BitVec 64 "
-    "functions; statement order of the surrounding functions is shape-checked; sizeof(MemoryLeakDetectorNode) is computed from the struct "
-    "fields (LP64) and also printed by the harness (a mismatch is a visible diff)",
+    "translate/extract_alloclayout.py: (a) the size expressions (calculateVoidPointerAlignedSize, sizeOfMemoryWithCorruptionInfo, node offset, "
+    "request sizes, both overflow guards, the calloc test/request/memset, strdup/strndup lengths) are parsed from the current source and "
+    "emitted as BitVec 64 functions; (b) the bodies of allocMemory, storeLeakInformation, reallocateMemoryAndLeakInformation, reallocMemory "
+    "(with its two conditional blocks) and deallocMemory are split into statements and emitted as micro-step lists "
+    "(Gen/AllocLayoutCode.lean); (c) every global operator new/delete overload, the C entry points, both function-pointer switches, the "
+    "thread-safe twins and the allocators' small bodies are emitted as tables. The interpreter of the micro-steps "
+    "(Model/AllocLayoutCode.lean) is hand-written; the driver replays every trace through the regenerated lists, so a translator or "
+    "interpreter mistake shows up as a disagreement with the code",
+    "hand-written model lean/CppUModel/Model/AllocLayout.lean: proved equal to the regenerated statement lists for allocMemory / reallocMemory "
+    "/ deallocMemory / storeLeakInformation (allocMemoryCode_eq, reallocMemoryCode_eq, deallocMemoryCode_eq, history_gen_eq); the C wrappers "
+    "(calloc, strdup_alloc, strlen, operator new's throw) stay hand-modelled with regenerated expressions and shape-checked statement order, "
+    "tied by the h_c05 correspondence (this run, ASan/UBSan, default build and -DCPPUTEST_DISABLE_MEM_CORRUPTION_CHECK)",
+    "sizeof(MemoryLeakDetectorNode) is computed from the struct fields (LP64) and also printed by the harness (a mismatch is a visible diff)",
     "platform allocator contract (environment hypothesis of the theorems): an answer is NULL or a block of exactly the requested "
     "length, disjoint from every live block; realloc hands back the common prefix; blocks are 16-byte aligned (observed each run)",
 ]
 ASSUMPTIONS = [
     "LP64 (size_t = 64 bits, pointers 8 bytes)",
     "with the DEFAULT allocators a NULL from PlatformSpecificMalloc is turned by checkedMalloc into the test failure "
-    "'malloc returned null pointer' (pinned upstream behaviour); the oracle accepts this outcome as a clean failure "
-    "(the request does not return, the test is failed, the tracked set is unchanged) next to NULL and std::bad_alloc",
+    "'malloc returned null pointer' (pinned upstream behaviour, its body is regenerated: one_line_bodies); the oracle accepts this outcome "
+    "as a clean failure (the request does not return, the test is failed, the tracked set is unchanged) next to NULL and std::bad_alloc",
     "two distinct underlying blocks never overlap: platform allocator contract, observed under ASan, not proved",
     "the theorems hold for every sizeof(MemoryLeakDetectorNode) that is a multiple of 8 below 2^32 (the regenerated value is 64)",
+    "allocators outlive the history (`allocator->hasBeenDestroyed()` is false in deallocMemory)",
+    "the whole-history invariant covers the layout the public wrappers choose (inline record for new/new[], separate for malloc, separate "
+    "for everything without guard bytes); the other value of allocatNodesSeperately (direct API use) is covered by the single-step "
+    "theorems and by the correspondence (stream sepmix), not by the invariant",
     "known findings (listed, not hidden): c05-node-alloc-null (reallocMemory dereferences a NULL accounting node), "
     "c05-nothrow-new-terminate (test failure thrown through the noexcept nothrow operator new)",
 ]
-RULE = ("per case a history of tracked allocations through a private MemoryLeakDetector (recording allocators, three families, inline and "
-        "separate node layout) and through the global API (cpputest_malloc/calloc/realloc/free/strdup/strndup, six operator new variants); "
-        "sizes: every size 0..4096 (thorough; dense sample in quick), powers of two +-3, the top 64 values of SIZE_MAX and the neighbourhood "
-        "of the overflow guard, calloc pairs around num*size = 2^64, strings of length 0..300 x strndup n; fault schedules: the k-th call of "
-        "alloc_memory / PlatformSpecificRealloc / PlatformSpecificMalloc answers NULL for every k of a workload (thorough), NullUnknownAllocator "
-        "out-of-memory mode; non-trivial = at least one successful and one failed request, or a realloc; distinct = distinct op sequences")
+RULE = ("per case a history of tracked allocations through a private MemoryLeakDetector (recording allocators, three families, BOTH values of "
+        "allocatNodesSeperately in every family) and through the global API (cpputest_malloc/calloc/realloc/free/strdup/strndup, eight "
+        "operator new forms incl. the (file, int line) overloads, five operator delete forms incl. sized and nothrow, scalar and array), in the "
+        "default and in the thread-safe overload mode (switched in the middle of histories), with the default allocators, the "
+        "NullUnknownAllocator and the CrashOnAllocationAllocator as current allocator; sizes: every size 0..4096 (thorough; dense sample in "
+        "quick), powers of two +-3, the top 64 values of SIZE_MAX and the neighbourhood of the overflow guard, calloc pairs around "
+        "num*size = 2^64, strings of length 0..300 x strndup n; fault schedules: the k-th call of alloc_memory / allocMemoryLeakNode / "
+        "PlatformSpecificRealloc / PlatformSpecificMalloc answers NULL for every k of a workload (thorough); non-trivial = at least one "
+        "successful and one failed request, or a realloc; distinct = distinct op sequences")
 
 FAMS = ["new", "newarr", "malloc"]
 NEWV = ["new", "new_nothrow", "new_debug", "new_array", "new_array_nothrow", "new_array_debug"]
 NEWV_THROWING = ["new", "new_debug", "new_array", "new_array_debug"]
+NEWV_INT = ["new_debug_int", "new_array_debug_int"]          # the (file, int line) overloads
+DELX = ["loc_int", "loc_size", "sized", "nothrow"]           # the operator delete overloads besides the plain one
 
 
 class Lab:
@@ -229,7 +245,10 @@ def workload(rng, n, nothrow_ok=True):
         if x < 0.18:
             f = rng.choice(FAMS)
             a = L.new()
-            ops.append("alloc %s %d %s %d" % (f, sz, a, sd))
+            if rng.random() < 0.25:     # the layout the public wrappers never choose for this family
+                ops.append("alloc %s %d %s %d %d" % (f, sz, a, sd, 0 if f == "malloc" else 1))
+            else:
+                ops.append("alloc %s %d %s %d" % (f, sz, a, sd))
             priv.append((a, f))
         elif x < 0.34 and priv:
             a, f = rng.choice(priv)
@@ -266,12 +285,13 @@ def workload(rng, n, nothrow_ok=True):
             glob.append(g)
         elif x < 0.88:
             nl = L.new("n")
-            ops.append("gnew %s %d %s %d" % (rng.choice(NEWV if nothrow_ok else NEWV_THROWING), sz, nl, sd))
+            ops.append("gnew %s %d %s %d" % (rng.choice((NEWV if nothrow_ok else NEWV_THROWING) + NEWV_INT), sz, nl, sd))
             news.append(nl)
         elif x < 0.93 and glob:
             ops.append("gfree %s" % glob.pop(rng.randrange(len(glob))))
         elif news:
-            ops.append("gdelete %s" % news.pop(rng.randrange(len(news))))
+            nl = news.pop(rng.randrange(len(news)))
+            ops.append("gdelete %s" % nl if rng.random() < 0.5 else "gdeletex %s %s" % (rng.choice(DELX), nl))
     return ops
 
 
@@ -328,6 +348,122 @@ def rzero_case(rng, faults=True):
         p3 = L.new()
         ops.append("realloc %s null %d %s %d" % (f, 0 if rng.random() < 0.5 else rng.choice(sizes), p3, rng.randrange(200)))
         ops.append("free %s %s" % (f, p2))
+    ops.append("finish")
+    return ops
+
+
+def sepmix_case(rng, faults=True):
+    """MemoryLeakDetector::allocMemory / reallocMemory / deallocMemory with BOTH values of allocatNodesSeperately in
+    every family (the public wrappers only ever use inline for new/new[] and separate for malloc): sizes around the
+    alignment steps and the overflow guard, failing alloc_memory / allocMemoryLeakNode / PlatformSpecificRealloc"""
+    ops, L = ["config"], Lab()
+    sizes = [0, 1, 4, 5, 7, 8, 13, 16, 61, 64, 100, 255, 300, 4096]
+    big = [M64, M64 - 2, M64 - 66, M64 - 67, M64 - 74, M64 - 75, M64 - 76, 1 << 63, (1 << 63) + 5]
+    live = []
+    for _ in range(rng.randrange(4, 12)):
+        f = rng.choice(FAMS)
+        sep = rng.randrange(2)
+        x = rng.random()
+        if x < 0.45 or not live:
+            a = L.new()
+            if faults and rng.random() < 0.2:
+                ops.append("fail %s 1" % rng.choice(["alloc", "node"]))       # a NULL node is handled by allocMemory (realloc: listed finding)
+            ops.append("alloc %s %d %s %d %d" % (f, rng.choice(sizes) if rng.random() < 0.85 else rng.choice(big), a, rng.randrange(200), sep))
+            live.append((a, f))
+        elif x < 0.75:
+            k = rng.randrange(len(live))
+            a, f = live[k]
+            b = L.new()
+            fails = False
+            if faults and rng.random() < 0.3:
+                ops.append("fail realloc 1")
+                fails = True
+            if rng.random() < 0.85:
+                nsz = rng.choice(sizes)
+            else:
+                nsz, fails = rng.choice(big), True
+            ops.append("realloc %s %s %d %s %d" % (f, a, nsz, b, rng.randrange(200)))
+            ops.append("peek %s" % a)
+            ops.append("peek %s" % b)
+            if not fails:
+                live[k] = (b, f)          # the block now goes by its new label (a stale pointer is C06's subject)
+        elif x < 0.85:
+            b = L.new()
+            if faults and rng.random() < 0.3:
+                ops.append("fail realloc 1")
+            ops.append("realloc %s null %d %s %d %d" % (f, rng.choice(sizes), b, rng.randrange(200), sep))
+            live.append((b, f))
+        else:
+            a, f = live.pop(rng.randrange(len(live)))
+            ops.append("free %s %s" % (f, a))
+    for a, f in live:
+        if rng.random() < 0.5:
+            ops.append("peek %s" % a)
+    ops.append("finish")
+    return ops
+
+
+def forms_case(rng, faults=False):
+    """every global operator new / delete overload: plain, (file, int line), (file, size_t line), sized, std::nothrow,
+    scalar and array, paired in every combination the language allows (the delete overloads all end in the same function)"""
+    ops, L = ["config"], Lab()
+    sizes = [0, 1, 3, 8, 24, 100, 1000]
+    forms = (NEWV_THROWING + NEWV_INT) if faults else (NEWV + NEWV_INT)
+    for _ in range(rng.randrange(3, 9)):
+        v = rng.choice(forms)
+        n = L.new("n")
+        if faults and rng.random() < 0.3:
+            ops.append("fail pmalloc 1")
+        sz = rng.choice(sizes) if rng.random() < 0.85 else rng.choice([M64, M64 - 70, M64 - 80, 1 << 63])
+        if sz > LIMIT and v not in NEWV_THROWING + NEWV_INT:
+            v = rng.choice(NEWV_THROWING + NEWV_INT)       # (a nothrow form with a failing default allocator is the listed finding)
+        ops.append("gnew %s %d %s %d" % (v, sz, n, rng.randrange(200)))
+        ops.append("gpeek %s" % n)
+        ops.append("gdelete %s" % n if rng.random() < 0.25 else "gdeletex %s %s" % (rng.choice(DELX), n))
+    ops.append("finish")
+    return ops
+
+
+def crashalloc_case(rng):
+    """CrashOnAllocationAllocator (never matching crash number) as the current allocator of the three families"""
+    ops, L = ["config"], Lab()
+    for rnd in range(rng.randrange(1, 3)):
+        ops.append("gcrashalloc on")
+        w = workload(rng, rng.choice([4, 8, 12]), nothrow_ok=False)
+        w = [o for o in w if o.split()[0] not in ("alloc", "realloc", "free", "peek")]
+        ops += w
+        ops += ["gfree g%d" % k for k in range(1, 40)] + ["gdelete n%d" % k for k in range(1, 40)]    # dead labels are skipped
+        ops.append("gcrashalloc off")
+        ops.append("gmalloc 9 %s 1" % ("z%d" % rnd))
+        ops.append("gfree z%d" % rnd)
+    ops.append("finish")
+    return ops
+
+
+def tsafe_case(rng, faults):
+    """the same workloads through the threadsafe_mem_leak_* entry points (turnOnThreadSafeNewDeleteOverloads), switching
+    back and forth in the middle of a history (blocks allocated in one mode are resized / released in the other)"""
+    ops = ["config", "gthreadsafe on"]
+    w = workload(rng, rng.choice([6, 12, 20]), nothrow_ok=not faults)
+    if faults:
+        pts = fault_points(w)
+        pts = [p for p in pts if p[0] != "alloc"]
+        if pts:
+            ops.append("fail %s %d" % rng.choice(pts))
+    cut = rng.randrange(len(w) + 1)
+    ops += w[:cut]
+    if rng.random() < 0.6:
+        ops.append("gthreadsafe off")
+        k = rng.randrange(cut, len(w) + 1)
+        ops += w[cut:k]
+        ops.append("gthreadsafe on")
+        ops += w[k:]
+    else:
+        ops += w[cut:]
+    for sz in rng.sample([M64, M64 - 70, M64 - 76, 1 << 63], 2):       # impossible sizes in this mode: NULL / bad_alloc, never a lock left held
+        ops.append("gnew %s %d %s 1" % (rng.choice(NEWV + NEWV_INT), sz, "t%d" % sz))
+        ops.append("gmalloc %d %s 1" % (sz, "u%d" % sz))
+    ops.append("gmalloc 5 last 1")
     ops.append("finish")
     return ops
 
@@ -403,7 +539,11 @@ def known_cases(rng, n):
         x = rng.randrange(5)
         sz, sz2 = rng.randrange(0, 300), rng.randrange(0, 300)
         if x == 0:      # platform realloc worked, the new accounting node cannot be allocated
-            out.append(("known", ["config", "alloc malloc %d b1 1" % sz, "fail node 1", "realloc malloc b1 %d b2 2" % sz2, "finish"]))
+            if rng.random() < 0.5:
+                out.append(("known", ["config", "alloc malloc %d b1 1" % sz, "fail node 1", "realloc malloc b1 %d b2 2" % sz2, "finish"]))
+            else:       # the same with a separately kept node in the new / new[] family (direct API use)
+                kf = rng.choice(["new", "newarr"])
+                out.append(("known", ["config", "alloc %s %d b1 1 1" % (kf, sz), "fail node 1", "realloc %s b1 %d b2 2" % (kf, sz2), "finish"]))
         elif x == 1:    # platform realloc failed, the node for re-tracking the old block cannot be allocated
             out.append(("known", ["config", "alloc malloc %d b1 1" % sz, "fail realloc 1", "fail node 1",
                                   "realloc malloc b1 %d b2 2" % sz2, "peek b1", "finish"]))
@@ -491,6 +631,15 @@ def generate(rng, tier):
     # 6b. realloc(p, 0) and realloc(NULL, n)
     for i in range(300 if thorough else 25):
         out.append(("rzero", rzero_case(rng)))
+    # 6c. both node layouts in every family; every operator new / delete overload; CrashOnAllocationAllocator
+    for i in range(600 if thorough else 60):
+        out.append(("sepmix", sepmix_case(rng)))
+    for i in range(300 if thorough else 30):
+        out.append(("forms", forms_case(rng, faults=(i % 3 == 0))))
+    for i in range(150 if thorough else 12):
+        out.append(("crashalloc", crashalloc_case(rng)))
+    for i in range(400 if thorough else 40):
+        out.append(("tsafe", tsafe_case(rng, faults=(i % 2 == 0))))
     # 7. malformed stream
     for i in range(1000 if thorough else 60):
         out.append(("malformed", malformed_case(rng)))
@@ -538,7 +687,7 @@ def signature(r):
                 break
         if w[1] == "grealloc" and r.crash and oom and obs and re.fullmatch(r"urealloc \d+ \d+ [1-9]\d*", obs[-1]):
             return "c05-node-alloc-null"          # NullUnknownAllocator: the node allocation is NULL without a platform call
-        if w[1] in ("realloc", "grealloc"):
+        if w[1] in ("realloc", "reallocx", "grealloc"):
             # the accounting node of a reallocation could not be allocated
             node_null = any(re.fullmatch(r"unode \d+ 0", o) for o in obs)
             pm_null = any(re.fullmatch(r"pm \d+ 0", o) for o in obs) and any(o.startswith("urealloc ") for o in obs)
@@ -562,6 +711,10 @@ def observe(r, rep):
     for op, obs in _op_blocks(r.impl or []):
         w = op.split()
         name = w[1]
+        if name in ("allocx", "reallocx", "freex"):
+            rep.count("branch.non_default_node_layout(%s)" % name)
+        if name == "gdeletex":
+            rep.count("branch.operator_delete_overload(%s)" % w[2])
         ret = next((o for o in obs if o.startswith("ret ")), None)
         if ret is None:
             continue
@@ -574,7 +727,9 @@ def observe(r, rep):
                 rep.count("branch.failed_because_platform_answered_NULL")
             elif not called:
                 rep.count("branch.rejected_before_any_platform_call(overflow guard, calloc test, NullUnknownAllocator)")
-        if name in ("realloc", "grealloc"):
+        if name == "gnew" and len(w) > 2 and w[2].endswith("_int"):
+            rep.count("branch.operator_new_file_int_line_overload")
+        if name in ("realloc", "reallocx", "grealloc"):
             if any(re.fullmatch(r"urealloc [1-9]\d* \d+ 0", o) for o in obs):
                 rep.count("branch.realloc_failed_old_block_retracked")
             elif kind == "ptr":
@@ -617,6 +772,12 @@ def extra(ctx, exe):
         cases.append(("nc-rzero:%d" % i, rzero_case(rng)))
     for i, ch in enumerate(chunks(calloc_pairs(rng), 20)):
         cases.append(("nc-calloc:%d" % i, calloc_case(rng, ch)))
+    for i in range(200 if thorough else 20):
+        cases.append(("nc-sepmix:%d" % i, sepmix_case(rng)))
+    for i in range(80 if thorough else 8):
+        cases.append(("nc-forms:%d" % i, forms_case(rng, faults=(i % 3 == 0))))
+    for i in range(80 if thorough else 8):
+        cases.append(("nc-tsafe:%d" % i, tsafe_case(rng, faults=(i % 2 == 0))))
     results, _, err = flow.run_cases(ctx.mod, exe2, cases)
     known = {k["signature"] for k in core.known_findings(ID) if k.get("status") == "known"}
     bad = {}
@@ -648,30 +809,40 @@ def extra(ctx, exe):
 
 
 LEVEL_TEXT = ("Machine-checked Lean 4 theorems, for all 64-bit sizes, both build configurations and every node size that is a multiple "
-              "of 8, about the size expressions REGENERATED from the current source (aligned size, size with corruption info, node offset, "
-              "request sizes, both overflow guards, the calloc test, the strdup/strndup length computations): the overflow guard rejects "
-              "exactly the sizes whose bookkeeping-extended size does not fit size_t; for every accepted size the user bytes, guard bytes and "
-              "inline record are pairwise disjoint, inside the requested block, the record 8-aligned, the platform is never asked for 0 "
-              "bytes; the calloc test is exact and a successful calloc zero-filled; strdup/strndup copy exactly the C string / its n-prefix "
-              "for every bound n up to SIZE_MAX. A WHOLE-HISTORY INVARIANT is proved for the byte-level model: every state reachable from "
-              "the empty detector through new/new[]/malloc/calloc/strdup/strndup/realloc/free/delete/delete[] and client stores into user "
-              "bytes, of any length, under the platform contract, has pairwise different tracked blocks, each live, exactly as long as "
-              "requested, guard bytes intact, the record inline behind the guard or in a live block of its own; and no operation of such a "
-              "history writes outside a block or dereferences NULL (outside the two listed findings, excluded by name). From the invariant "
-              "alone: realloc of any tracked block keeps the first min(old,new) user bytes and swaps the records; a failing platform "
-              "realloc re-tracks the old block untouched; realloc(p,0) and realloc(NULL,n) behave as allocations; free/delete/delete[] "
-              "release exactly the block, with one platform free carrying the caller's own pointer (node block first in the separate "
-              "layout); the pointer handed to the caller is the platform's block at offset 0 (so it has the platform's alignment); failed "
-              "requests leave the tracked set unchanged; throwing operator new never returns NULL. The model is tied to the code on every "
-              "run by a differential harness under ASan/UBSan (private detector with recording allocators and the global API with failing "
-              "platform seams, default build and -DCPPUTEST_DISABLE_MEM_CORRUPTION_CHECK); the implementation's own observations are "
-              "judged by an independent specification oracle.")
-LEVEL_NOTE = ("Trusted: Lean kernel; the hand-written model (validated against the code by this run's correspondence); the expression "
-              "translator; the platform allocator contract (fresh, disjoint, 16-aligned blocks; realloc keeps the prefix). Not carried by "
-              "theorems: that distinct underlying blocks do not overlap and that the compiled code touches only what the model touches "
-              "(observed under ASan with exact-size blocks). With the default allocators a platform NULL becomes the test failure "
-              "'malloc returned null pointer' (accepted as clean failure). Two listed findings remain: reallocMemory dereferences a NULL "
-              "accounting node (c05-node-alloc-null), nothrow operator new terminates when the default allocator fails the test "
+              "of 8. REGENERATED from the current source on every run and used by the theorems: (1) every size expression (aligned size, size "
+              "with corruption info, node offset, request sizes, both overflow guards, calloc test, strdup/strndup lengths) as BitVec 64 "
+              "functions; (2) the STATEMENT LISTS of allocMemory, storeLeakInformation, reallocateMemoryAndLeakInformation, reallocMemory and "
+              "deallocMemory, executed by an interpreter and PROVED EQUAL to the model the theorems are about (allocMemoryCode_eq, "
+              "reallocMemoryCode_eq, deallocMemoryCode_eq; history_gen_eq: every history run by the source's statement lists is the model's "
+              "history); (3) the wiring of all 18 global operator new/delete overloads, of the C entry points, of both function-pointer "
+              "switches, the thread-safe twins (same body behind the lock) and the allocators' small bodies. Proved: the overflow guard "
+              "rejects exactly the sizes whose bookkeeping-extended size does not fit size_t, and a request succeeds IF AND ONLY IF the size "
+              "is accepted and the allocator delivered (alloc_succeeds_iff); for every accepted size the user bytes, guard bytes and inline "
+              "record are pairwise disjoint, inside the requested block, the record 8-aligned, the platform never asked for 0 bytes; the "
+              "calloc test is exact and a successful calloc zero-filled; strdup/strndup copy exactly the C string / its n-prefix for every "
+              "bound n. WHOLE-HISTORY INVARIANT of the byte-level model: every state reachable from the empty detector through new/new[]/"
+              "malloc/calloc/strdup/strndup/realloc/free/delete/delete[] and client stores, of any length, under the platform contract, has "
+              "pairwise different tracked blocks, each live, exactly as long as requested, guard bytes intact, the record inline behind the "
+              "guard or in a live block of its own; no operation writes outside a block or dereferences NULL (outside the two listed "
+              "findings, excluded by name). From the invariant alone: realloc keeps the first min(old,new) user bytes and swaps the records; "
+              "a failing platform realloc re-tracks the old block untouched; realloc(p,0) and realloc(NULL,n) behave as allocations; "
+              "free/delete/delete[] release exactly the block with one platform free carrying the caller's own pointer; the pointer handed "
+              "out is the platform's block at offset 0; failed requests leave the tracked set unchanged; throwing operator new never returns "
+              "NULL; every operator new overload reaches a variant of its own array-ness. The model is tied to the code on every run by a "
+              "differential harness under ASan/UBSan (private detector with recording allocators and both node layouts, the global API with "
+              "failing platform seams in both overload modes, default build and -DCPPUTEST_DISABLE_MEM_CORRUPTION_CHECK); the "
+              "implementation's own observations are judged by an independent specification oracle.")
+LEVEL_NOTE = ("Trusted: Lean kernel; the translator and the hand-written micro-step interpreter (both validated against the code by this "
+              "run's correspondence, which replays through the regenerated lists); the hand-modelled C wrappers (calloc, strdup_alloc, "
+              "strlen: expressions regenerated, statement order shape-checked); the platform allocator contract (fresh, disjoint, 16-aligned "
+              "blocks; realloc keeps the prefix). Not carried by theorems: that distinct underlying blocks do not overlap and that the "
+              "compiled code touches only what the model touches (observed under ASan with exact-size blocks); the non-default value of "
+              "allocatNodesSeperately inside the whole-history invariant (single-step theorems + correspondence only); "
+              "AccountingTestMemoryAllocator / MemoryLeakAllocator as underlying allocator (not driven). With the default allocators a "
+              "platform NULL becomes the test failure 'malloc returned null pointer' (accepted as clean failure). Two listed findings "
+              "remain: reallocMemory dereferences a NULL accounting node (c05-node-alloc-null; proved to be a property of the regenerated "
+              "statement list: reallocGen_node_null_ub), nothrow operator new terminates when the default allocator fails the test "
               "(c05-nothrow-new-terminate).")
-TECHNIQUE = ("Lean 4 proofs over BitVec 64 size arithmetic regenerated from the source + bounds-instrumented byte-level model + "
-             "differential correspondence harness with fault injection (two build variants)")
+TECHNIQUE = ("Lean 4 proofs over BitVec 64 size arithmetic and over statement lists regenerated from the source (interpreter + equality "
+             "with a bounds-instrumented byte-level model, whole-history invariant) + differential correspondence harness with fault "
+             "injection (two build variants, two overload modes)")
